@@ -1,1 +1,2 @@
 import Props.C12
+import Props.C09
